@@ -2,7 +2,7 @@
 # tools/trymutant.sh <patch.diff> <ID> [tier]  — run a check against a scratch copy of
 # /repo with a seeded change applied; prints the verdict lines; removes the copy.
 set -u
-PATCH="$1"; ID="$2"; TIER="${3:-quick}"
+PATCH="$(realpath "$1")"; ID="$2"; TIER="${3:-quick}"
 S=/tmp/trymut-$$-$ID
 rm -rf "$S"; mkdir -p "$S"
 rsync -a --exclude .git /repo/ "$S/casket/"
